@@ -64,11 +64,21 @@ def resolve(case):
         t = w4_templates(case.get("tier", "quick"))
         id_, text, mode, opt = t[case["i"]]
         return "w4:" + id_, text, "<w4-%s>" % id_, mode, opt
+    if k == "w9src":
+        import gen_const
+        id_, text = gen_const.source_case(case["seed"], case["i"])
+        return id_, text, "<%s>" % id_, mode, opt
     raise ValueError("unknown case kind %r" % (k,))
 
 
 def compile_case(case):
     """Returns (id, code, text) or (id, None, reason) when the source does not compile."""
+    if case["k"] == "w9":
+        import gen_const
+        try:
+            return gen_const.build_case(case["seed"], case["i"])
+        except (ValueError, TypeError, SystemError) as e:
+            return "w9:%s" % case["i"], None, "w9-build:%s" % type(e).__name__
     id_, text, filename, mode, opt = resolve(case)
     try:
         with warnings.catch_warnings():
@@ -81,6 +91,8 @@ def compile_case(case):
 
 def replay_case(case):
     """Self-contained copy of a case for a replay file (text inlined when small)."""
+    if case["k"] == "w9":
+        return case
     try:
         id_, text, filename, mode, opt = resolve(case)
     except Exception:
@@ -92,10 +104,19 @@ def replay_case(case):
 
 def iter_cases(shard):
     """Yield (case, id, code, text) for every compilable case of a shard."""
+    import time
+    slow = []
     for case in shard["cases"]:
         id_, code, text = compile_case(case)
         if code is None:
             H.count("skipped:" + text)
             continue
         H.count("cases")
+        t = time.time()
         yield case, id_, code, text
+        dt = time.time() - t
+        if dt > 1.0:
+            slow.append((round(dt, 1), id_))
+    slow.sort(reverse=True)
+    if slow:
+        H.emit({"t": "slow_cases", "interp": H.PYTAG, "cases": slow[:5]})
